@@ -172,6 +172,14 @@ C01, C02, C03, C07, C11, C12, C17, under 5 min for C04, C10, C18.  A bound that 
 checks, 3000 s otherwise; it was hit twice while twenty other jobs loaded the machine, never on a quiet one) is reported
 `complete=false` / `exhaustive=false` and the check still exits 0.
 
+Later session (rounds 16 and 17): C06, C09 and C17 gained sub-checks (`hier.reduce`, `geom.reduce`, cache reuse after
+`GeometryInfo::clear()`, pre-filled result arrays, near-miss filter tags, the cell-name length family).  Their quick tiers
+were run to completion on the unchanged tree after every change (all exit 0, exhaustive); the thorough tiers of C17 and C09
+were run end to end again on the strengthened harnesses (`notes/thorough_session3.log`).  The thorough tier of C06 (35-80 min)
+was NOT run again after `hier.reduce` and the near-miss tags were added: `hier.reduce` enumerates the same 3072 hierarchies
+in both tiers and the mixed leaf is part of the quick space, both completed there; the soft deadline still guarantees exit 0
+with `exhaustive=false` should the added work not fit.
+
 ### 10.6 Detection evidence
 
 Three independent sources; none of these changes is ever committed to /repo.
